@@ -1,0 +1,25 @@
+//go:build verif
+
+package main
+
+// Contracts for the verification machinery in /verif (comment-only file; compiled
+// only with -tags verif and adds no code).
+
+//@ # ---- C18: a preloaded file is analysed silently ----
+//@ # Whatever evaluationLoop prints (hints, diagnostics, query answers) is printed only for the
+//@ # target file in the check round: every printing call sits behind `!isLoad && round == "check"`.
+//@ func ti.evaluationLoop
+//@   inline 2 1
+//@   sitesonly
+//@   callsite[C18] cmd.Print* !isLoad && round == "check"
+//@   callsite[C18] fmt.Print* !isLoad && round == "check"
+//@   callsite[C18] setDefineInfos !isLoad && round == "check"
+//@   callsite[C18] appendSignature !isLoad && round == "check"
+
+//@ # Hints are produced only for methods defined in the file being reported on: the articles are
+//@ # global and also hold the definitions found while preloading.
+//@ func ti.setDefineInfos
+//@   inline 2 1
+//@   sitesonly
+//@   witness site:call.0#0 "x = 1\n" preload "def from_preload(a)\n  a\nend\nfrom_preload(1)\n" args "-i" expect "(Integer) -> Integer"
+//@   callsite[C18,C22] MakeSignatureContent article.P.FileName == p.FileName
